@@ -8,18 +8,31 @@ the model's termination measure is evaluated on both sides (`ru.measure`, eviden
 / `measure.not_decreased` by rule — the real optimizer's own termination argument differs for rules the
 model represents differently, so a non-decrease is never a verdict) and the instances of modelled,
 proved rules are counted (`rule_instances_covered` / `_uncovered`).
-Search: every program that computes with array.optimize-graph=False must simplify/lower/fuse
-without error under a watchdog, optimizing the optimized expression must return the same name,
-and the optimized compute must not raise.
+Search: every program whose RAW form computes (rewrite-free: `lower_completely()` only, the graph run
+directly, see harness/props_ext/rawfree.py — `x.compute()` under array.optimize-graph=False still runs
+dask's generic `expr.optimize()`, i.e. simplify, over the lowered tree and is therefore not a rewrite-free
+precondition) must simplify/lower/fuse without error under a watchdog, optimizing the optimized
+expression must return the same name, and the optimized compute of a FRESHLY BUILT copy of the program
+(a collection caches its first materialization, so re-computing the same object would re-run the raw
+graph) must not raise and must give the raw form's array.
+Streams: the random programs and broadcasting chains of the first rounds, plus directed chains over
+(a) rank-4/5 sources under axis permutations spelled as transpose / moveaxis / rollaxis / swapaxes (cycles
+preferred) followed by integer / mixed / explicit-bound indices and takes, (b) creation functions
+(ones / zeros / full / empty / arange / linspace / eye / tri / *_like, from_array(name=)) with and without
+name= / dtype=, chunks in every accepted form, alone and under elementwise ops, followed by every index
+kind, (c) ufuncs with out= (where=True and where=<array>) followed by slices, integer indices and takes
+that change the axis length.
 """
 from __future__ import annotations
 
+import random
 import signal
 import warnings
 
 import numpy as np
 
 from harness import classify, export as X, progcheck as PC, programs as P, trace as T
+from harness.props_ext.rawfree import raw_eval
 
 KNOWN = ("swv-layout-drift", "take-through-broadcast", "swv-nested-wrong-values", "broadcast-axis-zero-width-chunk")
 WATCHDOG_S = 20
@@ -46,12 +59,9 @@ def check_program(ctx, prog, want):
     if exc is not None:
         return
     x = env[prog[-1]["out"]]
-    # precondition of the property: computable without optimization
+    # precondition of the property: computable without optimization (no simplify, no fuse: lowering only)
     try:
-        with warnings.catch_warnings():
-            warnings.simplefilter("ignore")
-            with dask.config.set({"array.optimize-graph": False}):
-                base = np.asarray(x.compute(scheduler="sync"))
+        base = raw_eval(x.expr)
     except Exception:
         ctx.notes["not_computable_unoptimized"] = ctx.notes.get("not_computable_unoptimized", 0) + 1
         return
@@ -92,17 +102,31 @@ def check_program(ctx, prog, want):
         sig = "optimize-not-idempotent:" + rules2 if e3._name == e2._name else "optimize-not-converging"
         ctx.fail(sig, {"program": prog, "first": e1._name, "second": e2._name, "rules_in_second_pass": rules2,
                        "third_pass_stable": e3._name == e2._name}, "optimizing an optimized expression changes its name")
+    try:
+        shp1, shp0 = tuple(e1.shape), tuple(x.shape)
+    except Exception:  # noqa: BLE001  (metadata of the optimized tree is lazy; if reading it raises, so does the compute below)
+        shp1 = shp0 = ()
+    if shp1 != shp0 and not any(isinstance(d, float) and np.isnan(d) for d in shp1 + shp0):
+        ctx.fail("optimize-changes-shape", {"program": prog, "advertised": [int(d) for d in shp0], "optimized": [int(d) for d in shp1]},
+                 "the optimized expression has another shape than the collection advertises")
     if s2._name != s1._name:
         ctx.fail("simplify-not-idempotent", {"program": prog, "first": s1._name, "second": s2._name}, "simplify is not idempotent")
     if l2._name != l1._name:
         ctx.fail("lower-not-idempotent", {"program": prog, "first": l1._name, "second": l2._name}, "lower_completely is not idempotent")
     # a (rule, before) pair firing twice with different products within one pass would indicate flip-flopping
-    # optimized compute must not raise and must agree
+    # optimized compute must not raise and must agree: on a fresh build of the program, from cleared process-wide
+    # memo state (what `build; compute()` does in a new session)
+    T.clear_caches()
+    env2, exc2 = PC.build(prog)
+    if exc2 is not None:
+        ctx.fail("rebuild-raises:" + type(exc2).__name__, {"program": prog, "outcome": repr(exc2)[:300]}, "building the same program a second time raises")
+        return
+    x2 = env2[prog[-1]["out"]]
     try:
         with warnings.catch_warnings():
             warnings.simplefilter("ignore")
             with dask.config.set({"array.optimize-graph": True}):
-                got = np.asarray(x.compute(scheduler="sync"))
+                got = np.asarray(x2.compute(scheduler="sync"))
     except Exception as e:  # noqa: BLE001
         sig = classify.classify(prog, ("exc", e))
         ctx.fail(sig if sig in KNOWN else "optimized-compute-raises:" + type(e).__name__, {"program": prog, "outcome": repr(e)[:300]},
@@ -121,12 +145,29 @@ BCAST_PATTERNS = (
 )
 
 
+T6_PATTERNS = P.T6_PATTERNS  # third-round directed chains (families, generator kwargs, patterns): see harness/programs.py
+
+
+def directed_t6_stream(ctx):
+    # a child generator seeded from ctx.rng whose state is then restored (later streams draw what they drew before)
+    st = ctx.rng.getstate()
+    rng = random.Random(ctx.rng.getrandbits(64))
+    ctx.rng.setstate(st)
+    per = ctx.scale(10, 100)  # programs per pattern
+    for fam, (kw, pats) in T6_PATTERNS.items():
+        for pat, g in P.directed_programs_t6(rng, per * len(pats), pats, **kw):
+            ctx.count(("directed-t6", fam, pat))
+            check_program(ctx, g.prog, g.env[g.prog[-1]["out"]])
+
+
 def run(ctx, replay=None):
     rng = ctx.rng
     ctx.rule = (
-        "seeded random programs computable with array.optimize-graph=False; each is optimized under a "
-        f"{WATCHDOG_S}s watchdog, re-optimized (name must not change), simplify/lower idempotence, optimized compute; "
-        "distinct = set of rewrite rules fired"
+        "seeded random programs whose raw form computes rewrite-free (lower_completely only, graph run directly); each is "
+        f"optimized under a {WATCHDOG_S}s watchdog, re-optimized (name must not change), simplify/lower idempotence, advertised shape "
+        "kept, optimized compute of a fresh build (must not raise, must equal the raw form's array); directed chains: broadcasting "
+        "operands under explicit-bound slices; rank-4/5 permutations under integer indices; creation functions (name= / dtype= / "
+        "chunks forms) and ufunc(out=[, where=]) under every index kind; distinct = set of rewrite rules fired"
     )
     if replay is not None:
         prog = replay["case"]["program"]
@@ -156,6 +197,7 @@ def run(ctx, replay=None):
     for pat, g in P.directed_programs(rng, ctx.scale(400, 4000), BCAST_PATTERNS):
         ctx.count(("directed", pat))
         check_program(ctx, g.prog, g.env[g.prog[-1]["out"]])
+    directed_t6_stream(ctx)
     X.flush(ctx)
     # the model's own optimizer on the programs that lie inside the mini-language
     X.model_optimize_stream(ctx, mini)
